@@ -424,6 +424,7 @@ class C19Session:
         self.fault_fired, self.fault_missed = [], 0
         self.aborted_templates = []
         self.abort_n = []
+        self.abort_first_hits = []
         self.counts = {"compared": 0, "H1_value": 0, "H1_text": 0, "H1_struct": 0,
                        "H2_pairs": 0, "H3": 0, "H4": 0, "req": 0, "cache_hit_repeat": 0,
                        "after_fault_req": 0, "no_ref": 0}
@@ -634,6 +635,7 @@ class C19Session:
                 n = runtime.count_in_twin(self.injector, mode, lambda: self.do_req(st),
                                           timeout=200)
                 self.abort_n.append(n)
+                self.abort_first_hits.append(list(self.injector.last_first_hits))
                 if n <= 0:
                     self.fault_missed += 1
                     out = self.do_step(st)
@@ -658,6 +660,7 @@ class C19Session:
                         ev["abort"] = {k2: fired[k2] for k2 in
                                        ("file", "line", "func", "event", "kind")}
                         self.model._after_failure("abort", exc(), None)
+                        self.post_abort_probe()
                         if res is not None and err is None:
                             # the fault was swallowed inside the library and the request
                             # completed: it is held to the full oracle like any other
@@ -688,6 +691,33 @@ class C19Session:
             ev["reg"] = digest(self.model.state_digest_tuple(), 6)
             self.events.append(ev)
         self.epilogue(steps)
+
+    def post_abort_probe(self):
+        """right after an aborted request, before anything can repair the damage: every
+        live ground state must still hand out wavefunctions that share nothing (H2)"""
+        for key in self.world.live_keys():
+            if key[0] != "gs":
+                continue
+            gs = self.world.objs[key]
+            bag = []
+            try:
+                for order, bk in ((1, "ket"), (1, "ket"), (2, "bra"), (1, "bra")):
+                    psi = gs.psi(order, bk)
+                    idx = set(psi.atoms(self.Index)) if hasattr(psi, "atoms") else set()
+                    for prev in bag:
+                        self.counts["H2_pairs"] += 1
+                        if idx & prev:
+                            self.viol("shared-contracted", f"after an aborted request two "
+                                      f"wavefunctions of ground state {key} share the indices "
+                                      f"{sorted(map(str, idx & prev))}",
+                                      template="post-abort.psi")
+                            return
+                    bag.append(idx)
+            except Exception as exc:  # noqa: BLE001
+                self.viol("outcome", f"after an aborted request psi() of ground state {key} "
+                          f"raises {type(exc).__name__}: {str(exc)[:200]}",
+                          template="post-abort.psi")
+                return
 
     def epilogue(self, steps):
         """H5 (recovery): re-issue every aborted request; H2 consequence check"""
@@ -734,6 +764,8 @@ def execute(job):
         "stats": {"model": sess.model.stats, "counts": sess.counts,
                   "faults_fired": sess.fault_fired, "faults_missed": sess.fault_missed,
                   "abort_n": sess.abort_n,
+                  "abort_first_hits": sess.abort_first_hits if job.get("want_first_hits")
+                  else None,
                   "latent_states": sum(1 for e in sess.events if "latent" in e),
                   "clock": {"calls": clock.calls, "lo": clock.lo, "hi": clock.hi,
                             "callers": sorted(clock.callers)},
